@@ -69,6 +69,12 @@ EXTRA_HEADERS = [
     [b"X-Long: " + b"v" * 70],
     [b"X-Empty:"],
     [b"NoColon"],
+    # unusual header-line shapes (%NL% = the body's line break): folded continuation lines, white space
+    # around name / colon / value, lower-case names, several headers
+    [b"X-Folded: a%NL% b%NL%\tc"],
+    [b"content-type:text/plain;%NL% charset=utf-8"],
+    [b"X-Space :  v ", b"X-Tab:\tv\t"],
+    [b"CONTENT-TYPE: text/plain", b"X-A: 1", b"X-A: 2"],
 ]
 
 
@@ -76,15 +82,23 @@ def render(boundary, nl, parts, pre=None, epi=b"", first_pad=b"", close_pad=b"",
     """parts: list of (name, filename|None, headers[list of bytes], payload, bodyless)"""
     out = b""
     first = True
-    for name, fn, hdrs, payload, bodyless in parts:
+    for name, fn, hdrs, payload, bodyless, *style in parts:
         lead = (pre + nl) if (first and pre is not None) else (b"" if first else nl)
         out += lead + b"--" + boundary + (first_pad if first else b"") + nl
         first = False
-        out += b'Content-Disposition: form-data; name="' + name.encode() + b'"'
+        cd = b'form-data; name="' + name.encode() + b'"'
         if fn is not None:
-            out += b'; filename="' + fn.encode() + b'"'
-        out += nl
-        for h in hdrs:
+            cd += b'; filename="' + fn.encode() + b'"'
+        st = style[0] if style else 0
+        if st == 1:  # lower-case name, no space after the colon, parameters on a folded line
+            cd = b"content-disposition:" + cd.replace(b"; ", b";" + nl + b"\t")
+        elif st == 2:  # Content-Disposition after the other headers, padded with white space
+            cd = b"Content-Disposition :  " + cd + b" "
+        else:
+            cd = b"Content-Disposition: " + cd
+        lines = [h.replace(b"%NL%", nl) for h in hdrs]
+        lines = lines + [cd] if st == 2 else [cd] + lines
+        for h in lines:
             out += h + nl
         if bodyless and payload == b"":
             pass
@@ -105,7 +119,7 @@ def rand_parts(rng, boundary, nl, maxparts=4):
         if nl != b"\r\n":
             hdrs = [h for h in hdrs]
         payload = rand_payload(rng, boundary, nl)
-        parts.append((name, fn, hdrs, payload, rng.random() < 0.5))
+        parts.append((name, fn, hdrs, payload, rng.random() < 0.5, rng.choice([0, 0, 0, 1, 2])))
     return parts
 
 
@@ -115,7 +129,8 @@ def rand_body(rng, boundary=None, nl=None):
     parts = rand_parts(rng, boundary, nl)
     pre = None
     if rng.random() < 0.3:
-        pre = rng.choice([b"", b"preamble", b"pre" + nl + b"amble", b"--", b"--" + boundary[:-1] + b"!", b"x" * 50])
+        pre = rng.choice([b"", b"preamble", b"pre" + nl + b"amble", b"--", b"--" + boundary[:-1] + b"!", b"x" * 50,
+                          b"x --" + boundary + b"X", b"--" + boundary + b" junk" + nl + b"--" + boundary + b"-"])
     epi = rng.choice([b"", b"", b"epilogue", nl, b"--" + boundary + nl]) if rng.random() < 0.4 else b""
     close_pad = rng.choice([b"", b"", b" ", b"\t "])
     return boundary, render(boundary, nl, parts, pre=pre, epi=epi, close_pad=close_pad, trailing_nl=rng.random() < 0.85)
